@@ -32,7 +32,7 @@ import (
 
 // SetVerifHook lets the black-box tests (package compose_test) observe the task manager.
 // overflow is the length of the finished-but-uncollected list, valid at "exec.pushed" and "chan.handoff" only.
-func SetVerifHook(f func(point, node string, tm, task uintptr, overflow int)) {
+func SetVerifHook(f func(ctx context.Context, point, node string, tm, task uintptr, overflow int)) {
 	if f == nil {
 		setVerifTaskHook(nil)
 		return
@@ -46,7 +46,11 @@ func SetVerifHook(f func(point, node string, tm, task uintptr, overflow int)) {
 		if point == "exec.pushed" || point == "chan.handoff" {
 			ov = tm.l.Len()
 		}
-		f(point, node, uintptr(unsafe.Pointer(tm)), uintptr(unsafe.Pointer(ta)), ov)
+		var ctx context.Context
+		if ta != nil {
+			ctx = ta.ctx // carries the harness' per-call environment: events of other runs can be told apart
+		}
+		f(ctx, point, node, uintptr(unsafe.Pointer(tm)), uintptr(unsafe.Pointer(ta)), ov)
 	})
 }
 
